@@ -45,7 +45,11 @@ type JobResult struct {
 	Decisions   int64
 	UnknownQ    int
 	NotExplored int // pending prefixes dropped because the time budget ran out
-	Asserts     int64
+	NontrivialPaths int
+	AssertsUnsat    int64
+	AssertsConst    int64
+	UnknownPaths    int
+	seen            map[uint64]bool
 }
 
 type workItem struct {
@@ -242,6 +246,9 @@ type pathOutcome struct {
 	decisions  int
 	unknown    int
 	completed  bool
+	aUnsat     int64
+	aConst     int64
+	sig        uint64
 }
 
 func (r *Runner) runPath(x *Exec, it workItem, setups map[string]bool) {
@@ -260,6 +267,21 @@ func (r *Runner) runPath(x *Exec, it workItem, setups map[string]bool) {
 		res.Steps += out.steps
 		res.Decisions += int64(out.decisions)
 		res.UnknownQ += out.unknown
+		if out.unknown > 0 {
+			res.UnknownPaths++
+		}
+		if out.decisions > 0 {
+			res.NontrivialPaths++
+		}
+		res.AssertsUnsat += out.aUnsat
+		res.AssertsConst += out.aConst
+		if res.seen == nil {
+			res.seen = map[uint64]bool{}
+		}
+		if res.seen[out.sig] {
+			res.Notes["duplicate-path"]++
+		}
+		res.seen[out.sig] = true
 		for _, l := range out.reaches {
 			res.Reaches[l]++
 		}
@@ -380,6 +402,13 @@ func (r *Runner) runPath(x *Exec, it workItem, setups map[string]bool) {
 	out.steps = x.Steps
 	out.decisions = len(x.taken)
 	out.unknown = x.unknownQ
+	out.aUnsat, out.aConst = x.nAssertUnsat, x.nAssertConst
+	h := uint64(14695981039346656037)
+	for _, d := range x.taken {
+		h = (h ^ d) * 1099511628211
+		h ^= h >> 29
+	}
+	out.sig = h
 	if strings.HasPrefix(out.end, "unsupported") || strings.HasPrefix(out.end, "bound-exceeded") || out.unknown > 0 {
 		// results on such paths are kept (violations are still replayed natively), the path counts as inconclusive
 	}
